@@ -9,6 +9,7 @@
             Cmp(a, b)        the six comparisons of two registers by value            (no state change)
             ToFloat(a)       conversion to double: one of the two neighbouring doubles (no state change)
             Step("neg", a, a, d)   d := -a;   compound assignment d op= a is the Step d := d op a
+            Step("mov", a, a, d)   d := a    (plain assignment: the conversion between two register types on its own)
             Step(op, a, b, d)  d := a op b   -- the binary operator on the operands' types (elastic widening: exact
                              for +,-,*; the quotient rounded by the rounding mode for /) followed by conversion to d's
                              declared type: rounding conversion by d's rounding mode, then the overflow check of d's
@@ -32,6 +33,7 @@ OpResultValue(op, ta, ra, tb, rb) ==
       [] op = "mul" -> <<Mul(ra, rb), TExp(ta) + TExp(tb)>>
       [] op = "div" -> <<RoundQ(ra, rb, RoundingOf(ta)), TExp(ta) - TExp(tb)>>
       [] op = "neg" -> <<Neg(ra), TExp(ta)>>                       \* unary minus (b is ignored)
+      [] op = "mov" -> <<ra, TExp(ta)>>                            \* plain assignment d := a (b is ignored)
       [] op = "mod" -> <<TruncRem(ra, rb), TExp(ta)>>             \* remainder of the representations, at a's exponent
 
 \* order of the values of two registers: -1, 0, 1
@@ -75,7 +77,7 @@ TmpDigits(op, ta, tb) ==
                                   IN MaxI2(TDig(ta) + (TExp(ta) - em), TDig(tb) + (TExp(tb) - em)) + 1
       [] op = "mul" -> TDig(ta) + TDig(tb)
       [] op = "div" -> TDig(ta)
-      [] op = "neg" -> TDig(ta)
+      [] op \in {"neg", "mov"} -> TDig(ta)
       [] op = "mod" -> MinI(TDig(ta), TDig(tb))
 StorageDigits(t) == TDigits(AsIntT(InnerT(t)))
 \* elastic / casts both operands to the dividend-sized representation (ELASTIC-DIVMOD-NARROWS-OPERAND)
